@@ -56,7 +56,7 @@ func evalCase(h *host, c caseT) (fails []failure, oc string) {
 		switch exps[i].Class {
 		case expError:
 			anyErr = true
-		case expOpen, expRoundOrEr:
+		case expOpen, expRoundOrEr, expIfAccepted:
 			anyOpen = true
 		}
 	}
@@ -129,7 +129,7 @@ func evalCase(h *host, c caseT) (fails []failure, oc string) {
 	}
 	var bad []int
 	for i, e := range exps {
-		if e.Class == expExact || e.Class == expRoundOrEr {
+		if e.Class == expExact || e.Class == expRoundOrEr || e.Class == expIfAccepted {
 			if !sameGo(o.Got[i], e.Want) {
 				bad = append(bad, i)
 			}
@@ -252,9 +252,9 @@ func evalConvert(c caseT) (fails []failure, oc string) {
 			if r.err == nil {
 				fails = append(fails, failure{Mode: "no-error", Pos: 0, Detail: "value not representable in " + k.Name + ": expected an error\n" + obs})
 			}
-		case expRoundOrEr:
+		case expRoundOrEr, expIfAccepted:
 			if r.err == nil && !sameGo(reflect.ValueOf(r.v), exp.Want) {
-				fails = append(fails, failure{Mode: "wrong-value", Pos: 0, Detail: "expected an error or the IEEE-rounded " + goStr(exp.Want) + "\n" + obs})
+				fails = append(fails, failure{Mode: "wrong-value", Pos: 0, Detail: "expected an error or " + goStr(exp.Want) + "\n" + obs})
 			}
 		}
 	}
@@ -279,7 +279,12 @@ type memoKey struct {
 	path, role, kind, val, mode string
 }
 
-var memo = map[memoKey]bool{}
+type memoVal struct {
+	ok     bool
+	detail string
+}
+
+var memo = map[memoKey]memoVal{}
 
 type culprit struct {
 	role string // "param" | "result"
@@ -298,26 +303,26 @@ func isSingle(c caseT) bool {
 }
 
 // probe reports whether the minimal case sc fails in the given mode because of the given role.
-func probe(sc caseT, role, mode string) bool {
+func probe(sc caseT, role, mode string) (bool, string) {
 	mk := memoKey{sc.Path, role, strings.Join(sc.In, ",") + ">" + sc.Out, fmt.Sprint(sc.Args) + sc.Res, mode}
 	if r, ok := memo[mk]; ok {
-		return r
+		return r.ok, r.detail
 	}
-	memo[mk] = false // guards the (impossible) recursion
+	memo[mk] = memoVal{} // guards the (impossible) recursion
 	fs, _ := evalCase(newHost(sc), sc)
-	r := false
+	var r memoVal
 	for _, f := range fs {
 		if f.Mode != mode {
 			continue
 		}
 		for _, cu := range culprits(sc, f) {
 			if cu.role == role {
-				r = true
+				r = memoVal{true, f.Detail}
 			}
 		}
 	}
 	memo[mk] = r
-	return r
+	return r.ok, r.detail
 }
 
 func culprits(c caseT, f failure) []culprit {
@@ -330,7 +335,7 @@ func culprits(c caseT, f failure) []culprit {
 		case "result-wrong":
 			return []culprit{{"result", 1}}
 		case "refused":
-			if probe(singleCase(c.Path, "result", kindByName("int"), sval{}, "1"), "result", "refused") {
+			if ok, _ := probe(singleCase(c.Path, "result", kindByName("int"), sval{}, "1"), "result", "refused"); ok {
 				return []culprit{{"result", 1}}
 			}
 		}
@@ -358,7 +363,7 @@ func culprits(c caseT, f failure) []culprit {
 		} else {
 			sc = singleCase(c.Path, "result", kindByName(c.Out), sval{}, c.Res)
 		}
-		if probe(sc, cd.role, f.Mode) {
+		if ok, _ := probe(sc, cd.role, f.Mode); ok {
 			out = append(out, cd)
 		}
 	}
@@ -430,6 +435,11 @@ func findingsFor(c caseT, fails []failure) []finding {
 			} else {
 				k, res = kindByName(c.Out), c.Res
 				sc = singleCase(c.Path, "result", k, sval{}, res)
+			}
+			if !isSingle(c) {
+				if ok, d := probe(sc, cu.role, f.Mode); ok {
+					f.Detail = d
+				}
 			}
 			switch f.Mode {
 			case "refused":
